@@ -184,7 +184,9 @@ func ipv6cpGoodReq(id uint8) []byte {
 }
 
 func ipv6cpSamples() [][]byte {
-	id := func(v uint64) pppoe.LCPOption { return pppoe.LCPOption{Type: pppoe.IPV6CPOptInterfaceID, Data: be64(v)} }
+	id := func(v uint64) pppoe.LCPOption {
+		return pppoe.LCPOption{Type: pppoe.IPV6CPOptInterfaceID, Data: be64(v)}
+	}
 	return [][]byte{
 		ipv6cpGoodReq(1),
 		lcpPkt(pppoe.LCPCodeConfigRequest, 2, opts(id(0))),
@@ -303,7 +305,7 @@ func driveFSM(m *fsm, rec *sendRec, state string, goodReq func(uint8) []byte) er
 
 func fsmEntry(name, proto string, samples func() [][]byte, goodReq func(uint8) []byte, unit []byte) *entry {
 	return &entry{
-		name: name, states: fsmStates, quick: 60000, thorough: 2000000, chunk: 3000, cost: 3, scale: true,
+		name: name, states: fsmStates, quick: 40000, thorough: 400000, chunk: 4000, cost: 3, scale: true,
 		open: func(state string, ev *env) (runner, error) {
 			// probe once that the state is reachable
 			{
@@ -333,8 +335,6 @@ func fsmEntry(name, proto string, samples func() [][]byte, goodReq func(uint8) [
 				driveFSM(m, rec, state, goodReq)
 				lastID = rec.lastReqID
 				before, sent := m.state(), rec.n
-				if len(in) >= 2 && in[1] == 0xEE { // marker from fix(): not used
-				}
 				err := m.recv(exact(in))
 				after := m.state()
 				m.down() // stops the restart timer
@@ -387,7 +387,7 @@ func chapResp(id uint8, value []byte, name string) []byte {
 func authEntry() *entry {
 	return &entry{
 		name: "pppoe.Authenticator.ReceivePacket", states: []string{"pap-pending", "pap-done", "chap-pending", "chap-done"},
-		quick: 24000, thorough: 1000000, chunk: 3000, cost: 2, scale: true,
+		quick: 24000, thorough: 240000, chunk: 6000, cost: 2, scale: true,
 		open: func(state string, ev *env) (runner, error) {
 			chap := state == "chap-pending" || state == "chap-done"
 			proto := uint16(pppoe.ProtocolPAP)
@@ -444,7 +444,7 @@ func authEntry() *entry {
 					return chapResp(1, bytes.Repeat([]byte{7}, 255), string(bytes.Repeat([]byte{'n'}, n-260)))
 				}
 				// PAP lengths are one octet each: the rest is trailing data inside the PAP length
-				b := papReq(1, string(bytes.Repeat([]byte{'u'}, 255)), string(bytes.Repeat([]byte{'p'}, 255)))
+				b := papReq(1, string(bytes.Repeat([]byte{'u'}, 200)), string(bytes.Repeat([]byte{'p'}, 200)))
 				b = append(b, bytes.Repeat([]byte{0}, n-len(b))...)
 				binary.BigEndian.PutUint16(b[2:4], uint16(len(b)))
 				return b
@@ -460,7 +460,7 @@ func authEntry() *entry {
 func keepaliveEntry() *entry {
 	return &entry{
 		name: "pppoe.SessionKeepAlive.OnEchoReply", states: []string{"echo-pending", "idle"},
-		quick: 12000, thorough: 500000, chunk: 3000, cost: 3,
+		quick: 12000, thorough: 120000, chunk: 6000, cost: 3,
 		open: func(state string, ev *env) (runner, error) {
 			mac := net.HardwareAddr{2, 0, 0, 0, 0, 1}
 			mk := func() (*pppoe.SessionKeepAlive, *sendRec, error) {
@@ -566,18 +566,18 @@ func sessFrame(src net.HardwareAddr, sid uint16, proto uint16, ppp []byte) []byt
 }
 
 type pppoeLoop struct {
-	ev     *env
-	srv    *pppoe.Server
-	in     chan []byte
-	idle   chan struct{}
-	cancel context.CancelFunc
-	mu     sync.Mutex
-	sent   [][]byte
-	nextM  int
-	live   map[string][]uint16 // state name -> session ids (refreshed from the server)
-	sys    [][]byte
-	fed    int
-	full   bool
+	ev      *env
+	srv     *pppoe.Server
+	in      chan []byte
+	idle    chan struct{}
+	cancel  context.CancelFunc
+	mu      sync.Mutex
+	sent    [][]byte
+	nextM   int
+	live    map[string][]uint16 // state name -> session ids (refreshed from the server)
+	sys     [][]byte
+	fed     int
+	full    bool
 	crashed chan *feedPanic
 	dead    *feedPanic
 	topup   int
@@ -861,9 +861,13 @@ func (l *pppoeLoop) Next(i int, rng *rand.Rand) []byte {
 			b = mutate(rng, s, 14, ss[rng.IntN(len(ss))])
 		}
 	}
-	// most session frames should address a live session
+	// most session frames should address a live session, from the station that owns it
 	if len(b) >= 18 && rng.IntN(10) < 7 {
-		binary.BigEndian.PutUint16(b[16:18], l.anySession(rng))
+		sid := l.anySession(rng)
+		binary.BigEndian.PutUint16(b[16:18], sid)
+		if mac := l.srv.VerifC09SessionMAC(sid); len(mac) == 6 && rng.IntN(10) < 9 {
+			copy(b[6:12], mac)
+		}
 	}
 	if len(b) > 1522 {
 		b = b[:1522]
@@ -980,16 +984,18 @@ func (l *pppoeLoop) ScaleInput(n int) []byte {
 
 func pppoeLoopEntry() *entry {
 	return &entry{
-		name: "pppoe.Server.receiveLoop", states: []string{"sessions-in-every-phase", "session-table-full"}, quick: 24000, thorough: 600000, chunk: 1500, cost: 12, scale: true, scaleIn: []string{"sessions-in-every-phase"},
+		name: "pppoe.Server.receiveLoop", states: []string{"sessions-in-every-phase", "session-table-full"}, quick: 24000, thorough: 240000, chunk: 1500, cost: 12, scale: true, scaleIn: []string{"sessions-in-every-phase"},
 		quota: func(state string, thorough bool) int {
-			if state == "session-table-full" { // filling the table costs 65 535 exchanges per child
+			if state == "session-table-full" {
+				// filling the table costs 65 535 well-formed exchanges per child (15-25 s under the race
+				// detector), and every hang found another 10 s watchdog period: thorough tier only
 				if thorough {
 					return 600
 				}
-				return 40
+				return 0
 			}
 			if thorough {
-				return 600000
+				return 240000
 			}
 			return 24000
 		},
@@ -1002,7 +1008,7 @@ func pppoeLoopEntry() *entry {
 
 func parserEntry(name string, seeds [][]byte, call func(in []byte) (bool, error), scaleFn func(n int) []byte) *entry {
 	return &entry{
-		name: name, quick: 20000, thorough: 1000000, chunk: 10000, cost: 1, scale: scaleFn != nil,
+		name: name, quick: 20000, thorough: 200000, chunk: 10000, cost: 1, scale: scaleFn != nil,
 		open: func(state string, ev *env) (runner, error) {
 			r := &fnRunner{seeds: seeds, scale: scaleFn, fresh: true}
 			r.initSys(name)
@@ -1040,6 +1046,9 @@ func pppoeParserEntries() []*entry {
 				return hdr(pppoe.CodePADT, 5, body)
 			}),
 		parserEntry("pppoe.ParseEchoPacket", [][]byte{be32(7), append(be32(7), []byte("data")...), {1, 2}},
-			func(in []byte) (bool, error) { m, p, err := pppoe.ParseEchoPacket(in); return m != 0 || len(p) > 0, err }, nil),
+			func(in []byte) (bool, error) {
+				m, p, err := pppoe.ParseEchoPacket(in)
+				return m != 0 || len(p) > 0, err
+			}, nil),
 	}
 }
